@@ -195,6 +195,9 @@ def oracle(case, lines, insts):
 
 
 def run_shard(campaign, shard, nshards, seed, tier):
+    if campaign == 'api':
+        import apiuse
+        return apiuse.run_api('C04', shard, nshards, seed, tier)
     part = Part()
     rng = random.Random('%s/%s/%s' % (seed, campaign, shard))
     quick = tier != 'thorough'
@@ -249,4 +252,6 @@ def run(ctx):
     run_sharded(ctx, 'C04', 'exhaustive')
     run_sharded(ctx, 'C04', 'random')
     ctx.exhaustive['all flow-control histories up to length %s over the 17-letter alphabet from each starting state' % ('2' if ctx.quick else '3')] = True
-    return RULE, ASSUME
+    run_sharded(ctx, 'C04', 'api', nshards=2)
+    import apiuse
+    return RULE + apiuse.rule_text('C04'), ASSUME
